@@ -303,7 +303,14 @@ func runSchemaInfo(payload []*Sx) *Sx {
 		if act.AppliesTo != nil {
 			cx = L(A("context"), rrecToSx(act.AppliesTo.Context))
 		}
-		as.List = append(as.List, L(uidSx(u), cx))
+		var ps []*Sx
+		for p := range act.Entity.Parents.All() {
+			ps = append(ps, uidSx(p))
+		}
+		sort.Slice(ps, func(i, j int) bool { return ps[i].String() < ps[j].String() })
+		pl := L(A("parents"))
+		pl.List = append(pl.List, ps...)
+		as.List = append(as.List, L(uidSx(u), cx, pl))
 	}
 	return L(A("info"), es, en, as)
 }
